@@ -17,6 +17,21 @@ from .C17 import graph, call_blocks
 FIO = "file_io.c"
 
 
+def check_lzmadec_trailing(ck, prog, rule="C18-EXIT"):
+    f = prog.fn("uncompress", "xzdec.c", target="lzmadec")
+    ck.saw_function(f)
+    gs = guard.find_cmp(f, "field:avail_in", "const:0")
+    fr = guard.find_cmp(f, "call:fread", "const:0")
+    fe = guard.find_test(f, "call:feof", "T")
+    ok = bool(gs) and bool(fr) and bool(fe)
+    ck.ob(rule, "lzmadec:trailing-garbage", ok, common.where(f),
+          "lzmadec checks avail_in == 0, fread() == 0 and feof() before accepting LZMA_STREAM_END" if ok else
+          "lzmadec's uncompress(): LZMA_STREAM_END is accepted without all three of `strm->avail_in == 0`, a further fread() "
+          "returning 0 and feof(): feof() alone is true only after a read hit the end, so a .lzma file that ends exactly at a "
+          "buffer boundary is rejected, or bytes after the stream go unnoticed (found: avail_in %s, fread %s, feof %s)" % (
+              bool(gs), bool(fr), bool(fe)), key="EXIT:lzmadec:trailing")
+
+
 def check_xzdec(ck, prog, target):
     f = prog.fn("uncompress", "xzdec.c", target=target)
     ck.saw_function(f)
@@ -106,12 +121,7 @@ def check_xzdec(ck, prog, target):
         ck.ob("C18-EXIT", "%s:%s" % (target, nm), ok, common.where(f),
               "%s leads to exit(EXIT_FAILURE)" % nm, key="EXIT:%s:%s" % (target, nm))
     if target == "lzmadec":
-        gs = guard.find_cmp(f, "field:avail_in", "const:0")
-        fr = guard.find_cmp(f, "call:fread", "const:0")
-        fe = guard.find_test(f, "call:feof", "T")
-        ck.ob("C18-EXIT", "lzmadec:trailing-garbage", bool(gs) and bool(fr) and bool(fe), common.where(f),
-              "lzmadec checks avail_in == 0, fread() == 0 and feof() before accepting LZMA_STREAM_END",
-              key="EXIT:lzmadec:trailing")
+        check_lzmadec_trailing(ck, prog)
     if target == "xzdec":
         init = call_blocks(f, "lzma_stream_decoder")
         ok = bool(init) and ex.const_val(init[0][2]["args"][2]) == 0x08
@@ -266,7 +276,7 @@ def check_sparse(ck, prog):
 XZ_DECODER_FLAGS = {0x02: "LZMA_TELL_UNSUPPORTED_CHECK", 0x08: "LZMA_CONCATENATED", 0x10: "LZMA_IGNORE_CHECK"}
 
 
-def check_is_sparse(ck, prog):
+def check_is_sparse(ck, prog, rule="C18-SPARSE"):
     """is_sparse() decides that a whole output buffer may be replaced by a hole: it must look at EVERY word.  The loop
     advances i by a constant step k and reads buf->u64[i + c] for constants c: the set of c has to be {0 .. k-1} and the
     bound the full array length, otherwise non-zero bytes in an unexamined word are silently turned into zeros in sparse
@@ -281,43 +291,72 @@ def check_is_sparse(ck, prog):
         for (l, r, op, n) in ex.writes(e):
             if ex.show(l) == "i" and op == "+=" and ex.const_val(r) is not None:
                 step = ex.const_val(r)
-    offs = set()
-    nreads = 0
+    import re
+    dims = {}
+    for rn, rec in prog.records.items():
+        if "io_buf" in rn:
+            for fd_ in rec["fields"]:
+                m = re.search(r"\[(\d+)\]", fd_.get("ty") or "")
+                if m and fd_["n"] in ("u8", "u32", "u64"):
+                    dims[fd_["n"]] = (int(m.group(1)), {"u8": 1, "u32": 4, "u64": 8}[fd_["n"]])
+    if "u64" not in dims:
+        raise AnalysisBroken("io_buf: member u64 not found")
+    total = dims["u64"][0] * 8
+    reads = []          # (member, offset)
     other = None
     for b in f.blocks.values():
         for x in [y for e in b.elems if e is not None for y in ex.walk(e, into_refs=False)] + \
                 ([y for y in ex.walk(b.term["cond"])] if b.term and "cond" in b.term else []):
-            if x.get("k") == "idx" and ex.show(x["b"]).endswith("->u64"):
+            if x.get("k") == "idx" and ex.strip(x["b"]) is not None and ex.strip(x["b"]).get("k") == "mem" and \
+                    ex.strip(x["b"]).get("f") in dims:
                 ix = ex.strip(x["i"])
-                nreads += 1
+                mem = ex.strip(x["b"])["f"]
                 if ix.get("k") == "var" and ix["n"] == "i":
-                    offs.add(0)
+                    reads.append((mem, 0))
                 elif ix.get("k") == "bin" and ix["op"] == "+" and ex.show(ix["l"]) == "i" and ex.const_val(ix["r"]) is not None:
-                    offs.add(ex.const_val(ix["r"]))
+                    reads.append((mem, ex.const_val(ix["r"])))
                 else:
                     other = x
+
+    def cval(n):
+        v = ex.const_val(n)
+        if v is not None:
+            return v
+        n = ex.strip(n)
+        if n is not None and n.get("k") == "var":
+            for b, i_, e in f.iter_elems():
+                d = ex.deref(e)
+                if d.get("k") == "decl" and d["n"] == n["n"] and d.get("init") is not None:
+                    return ex.const_val(d["init"])
+        return None
     bound = None
     for b in f.blocks.values():
         if b.term and "cond" in b.term:
             c = ex.strip(b.term["cond"])
-            if c.get("k") == "bin" and c["op"] == "<" and ex.show(c["l"]) == "i" and ex.const_val(c["r"]) is not None:
-                bound = ex.const_val(c["r"])
-    if step is None or not nreads or other is not None or bound is None:
-        raise AnalysisBroken("is_sparse: loop shape not recognised (step %s, reads %d, bound %s)" % (step, nreads, bound))
-    import re
-    words = None
-    for rn, rec in prog.records.items():
-        for fd_ in rec["fields"]:
-            if fd_["n"] == "u64" and "io_buf" in rn:
-                m = re.search(r"\[(\d+)\]", fd_.get("ty") or "")
-                if m:
-                    words = int(m.group(1))
-    ok = offs == set(range(step)) and (words is None or bound == words) and bound % step == 0
-    ck.ob("C18-SPARSE", "is-sparse-covers-buffer", ok, common.where(f),
-          "is_sparse: step %d, words examined per iteration %s, bound %d = the whole buffer" % (step, sorted(offs), bound) if ok else
-          "is_sparse(): the loop advances by %d word(s) but examines only offsets %s (bound %d, buffer has %s words): non-zero "
-          "data in a word that is never examined is written as a hole, i.e. as zeros, when the output is a sparse-capable "
-          "regular file, while a pipe gets the real bytes" % (step, sorted(offs), bound, words),
+            if c.get("k") == "bin" and c["op"] == "<" and ex.show(c["l"]) == "i" and cval(c["r"]) is not None:
+                bound = cval(c["r"])
+    if step is None or not reads or other is not None or bound is None or step <= 0:
+        raise AnalysisBroken("is_sparse: loop shape not recognised (step %s, reads %d, bound %s)" % (step, len(reads), bound))
+    covered = bytearray(total)
+    over = None
+    for i0 in range(0, bound, step):
+        for mem, c_ in reads:
+            w_ = dims[mem][1]
+            lo = (i0 + c_) * w_
+            if lo + w_ > total:
+                over = (mem, i0 + c_)
+                continue
+            for k_ in range(lo, lo + w_):
+                covered[k_] = 1
+    missing = [k_ for k_ in range(total) if not covered[k_]]
+    ok = not missing and over is None
+    ck.ob(rule, "is-sparse-covers-buffer", ok, common.where(f),
+          "is_sparse: step %d, reads %s, bound %d: all %d bytes of the buffer are examined" % (step, sorted(set(reads)), bound, total) if ok else
+          ("is_sparse(): the loop (i < %d, step %d) examines %s: bytes %d..%d of the %d-byte buffer are never looked at (%d bytes in all); "
+           "non-zero data there is written as a hole, i.e. as zeros, when the output is a sparse-capable regular file, while a pipe "
+           "gets the real bytes" % (bound, step, sorted(set("%s[i+%d]" % r_ for r_ in reads)), missing[0],
+                                    next((k_ - 1 for k_ in range(missing[0], total) if covered[k_]), total - 1), total, len(missing)))
+          if missing else "is_sparse(): %s[%d] is read beyond the end of the buffer" % over,
           key="SPARSE:is-sparse-covers-buffer")
 
 
@@ -475,6 +514,37 @@ def check_fmt(ck, prog):
     ck.floor("C18-FMT", 4)
 
 
+def check_flush_timeout_mode(ck, prog, rule="C18-FLUSHMODE"):
+    """--flush-timeout is a compression option ("ignored when decompressing", xz(1)).  In io_read() a timeout makes a read
+    from a slow pipe end early with "no more input for now"; when compressing that triggers LZMA_SYNC_FLUSH, when
+    decompressing it would hand the decoder a short read as if it were the end.  mytime_get_flush_timeout() therefore
+    returns -1 (no timeout) on every path on which opt_mode == MODE_COMPRESS has not been established."""
+    ck.rule(rule, "mytime_get_flush_timeout() returns a real timeout only when opt_mode == MODE_COMPRESS")
+    f = prog.fn("mytime_get_flush_timeout", "mytime.c", target="xz")
+    ck.saw_function(f)
+    gs = guard.find_cmp(f, "var:opt_mode", "enum:MODE_COMPRESS")
+    cut = {(g.bid, 0 if g.pass_label == "T" else 1) for g in gs}
+    seen, st, bad = set(), [f.entry], None
+    while st:
+        x = st.pop()
+        if x is None or x in seen:
+            continue
+        seen.add(x)
+        for e in f.blocks[x].elems:
+            d = ex.deref(e) if e is not None else None
+            if d is not None and d.get("k") == "ret" and d.get("e") is not None and ex.const_val(d["e"]) != -1:
+                bad = bad or d
+        for idx, y in enumerate(f.blocks[x].succs):
+            if (x, idx) not in cut:
+                st.append(y)
+    ok = bad is None
+    ck.ob(rule, "mytime_get_flush_timeout", ok, common.where(f, bad),
+          "mytime_get_flush_timeout: without opt_mode == MODE_COMPRESS only `return -1` is reachable (%d mode test(s))" % len(gs) if ok else
+          "mytime_get_flush_timeout(): `%s` is reachable without opt_mode == MODE_COMPRESS having been established: with "
+          "--flush-timeout, `xz -dc` from a slow pipe stops waiting for input after the timeout and the decoder sees a short read" %
+          ex.show(bad), key="FLUSHMODE:mytime_get_flush_timeout")
+
+
 def run(ck):
     ck.explanation = (
         "Path-sensitive (finite-domain `ret`) write-before-fail and exit-status rules over xzdec/lzmadec's "
@@ -497,6 +567,7 @@ def run(ck):
     check_position_probe(ck, prog)
     check_decflags(ck, prog)
     check_fmt(ck, prog)
+    check_flush_timeout_mode(ck, prog)
     # "a file is created only from a completely valid input": coder_normal's success rules (shared with C17)
     from . import C17
     C17.check_fail(ck, prog)
@@ -505,3 +576,11 @@ def run(ck):
     # xz recognises exactly the .lzma files that the library (and lzmadec) decode (rule shared with C16)
     from . import C16
     C16.check_xz_lzma_heur(ck, prog, rule="C18-FMT")
+    C16.check_xz_lzma_size(ck, common.program(ck, ("liblzma",)), prog, rule="C18-FMT")
+    # `xz -d -T` writes everything that was decoded before an error, like `xz -d -T1` and xzdec do: the threaded decoder
+    # returns a pending main-thread error only after its output queue was drained (rule shared with C07)
+    from . import C07 as _C07
+    from .oblig import evaluate as _evaluate
+    ck.rule("C18-MTERR", "threaded decoder: the pending error is returned only after all earlier output was delivered")
+    _evaluate(ck, common.program(ck, ("liblzma",)), "C18-MTERR",
+              [t_ for t_ in _C07.TABLE if t_.oid == "error-after-drain"], floor=1)
